@@ -275,6 +275,17 @@ theorem year_floor_is_calendar_year (j : ℚ) (h0 : -1 / 2 ≤ j) (hmax : j < 53
   refine ⟨y, m, (d : ℚ) + f, v, ?_, by rw [e]; exact hv1, hv2⟩
   rw [e]; exact roundtrip_instant y m d f hv a b
 
+/-- "Day of year equals the JDE difference to 1 January of the same year plus one", in the property's own quantifier:
+    for EVERY rational JDE in [−0.5, 5373484.5), `doy()` is the JDE minus the JDE of 1 January 0h of the year `get_date`
+    returns, plus one -/
+theorem doy_of_any_jde (j : ℚ) (h0 : -1 / 2 ≤ j) (hmax : j < 5373484.5) :
+    ∃ (y m : Int) (d : ℚ), get_date j = .ok (y, m, d) ∧ doy j = .ok (j - compute_jde y 1 1 + 1) := by
+  obtain ⟨y, m, d, f, hv, a, b, hg, e⟩ := get_date_total j h0
+  have hy := year_le_9999_of_jde y m d f hv a b (by rw [e]; exact hmax)
+  refine ⟨y, m, (d : ℚ) + f, hg, ?_⟩
+  have := doy_method y m d f hv hy a b
+  rwa [e] at this
+
 /-! ### Sidereal time -/
 
 /-- "Mean sidereal time lies in [0, 1)" — for every rational JDE. -/
